@@ -29,9 +29,27 @@ class _Sink(__import__("logging").Handler):
             pass
 
 
+_REAL_CLOCKS: dict = {}
+
+
+def _fast_clocks(on: bool) -> None:
+    import time
+    if not _REAL_CLOCKS:
+        _REAL_CLOCKS.update(monotonic=time.monotonic, perf_counter=time.perf_counter, time=time.time, skew=[0.0])
+    if on:
+        def mk(real):
+            def clock():
+                _REAL_CLOCKS["skew"][0] += 1.7
+                return real() + _REAL_CLOCKS["skew"][0]
+            return clock
+        time.monotonic, time.perf_counter, time.time = mk(_REAL_CLOCKS["monotonic"]), mk(_REAL_CLOCKS["perf_counter"]), mk(_REAL_CLOCKS["time"])
+    else:
+        time.monotonic, time.perf_counter, time.time = _REAL_CLOCKS["monotonic"], _REAL_CLOCKS["perf_counter"], _REAL_CLOCKS["time"]
+
+
 def set_logging(key, debug: bool | None = None) -> None:
     """The library must behave the same whatever the application's logging configuration and time zone: jobs alternate (by a stable
-    hash of `key`) between logging switched off and every logger at DEBUG with a formatting handler, and rotate through four TZ values."""
+    hash of `key`) between logging switched off and every logger at DEBUG with a formatting handler, and rotate through five TZ values."""
     import logging
     import zlib
     def cheap(k, depth=0):
@@ -41,11 +59,18 @@ def set_logging(key, debug: bool | None = None) -> None:
             return k[:40]
         return k if isinstance(k, (int, float, bool, type(None))) else type(k).__name__
     h = zlib.crc32(repr(cheap(key)).encode())
-    # ... nor on the process's time zone (no statement mentions local time): jobs also rotate through four zones
+    # ... nor on the process's time zone (no statement mentions local time): jobs also rotate through five zones
     import os
     import time
-    os.environ["TZ"] = ("UTC", "Pacific/Auckland", "America/St_Johns", "XYZ-5:30")[(h >> 1) % 4]
+    os.environ["TZ"] = ("UTC", "Pacific/Auckland", "America/St_Johns", "XYZ-5:30", "Europe/Oslo")[(h >> 1) % 5]
     time.tzset()
+    # ... nor on the thread's decimal context (an application may have lowered the precision for its own arithmetic)
+    import decimal
+    decimal.getcontext().prec = (28, 6, 28, 3)[(h >> 4) % 4]
+    # ... nor on how much real time passes between two calls: in pool workers the process clocks jump ahead by 1.7 s per reading
+    import multiprocessing
+    if multiprocessing.current_process().name != "MainProcess":
+        _fast_clocks((h >> 6) % 2 == 1)
     if debug is None:
         debug = h % 2 == 1
     root = logging.getLogger()
@@ -59,6 +84,40 @@ def set_logging(key, debug: bool | None = None) -> None:
     root.setLevel(logging.DEBUG)
     logging.getLogger("asyncio").setLevel(logging.WARNING)
     logging.getLogger("han").setLevel(logging.DEBUG)
+
+
+_GAPS: dict = {}
+
+
+def dst_wall_times() -> list[tuple]:
+    """Civil (y, mo, d, h, mi, s) values that do not exist (spring forward) or exist twice (fall back) in the CURRENT process time zone,
+    years 2021..2030, plus the local UTC offset in minutes as last element of each tuple. Empty for zones without daylight saving."""
+    import datetime as _dt
+    import os
+    import time
+    tz = os.environ.get("TZ", "")
+    if tz in _GAPS:
+        return _GAPS[tz]
+    out = []
+    t0 = 1609459200     # 2021-01-01Z
+    prev = time.localtime(t0).tm_gmtoff
+    for h in range(1, 10 * 366 * 24):
+        off = time.localtime(t0 + h * 3600).tm_gmtoff
+        if off != prev:
+            lo, hi = t0 + (h - 1) * 3600, t0 + h * 3600
+            while hi - lo > 1:
+                mid = (lo + hi) // 2
+                if time.localtime(mid).tm_gmtoff == prev:
+                    lo = mid
+                else:
+                    hi = mid
+            before = _dt.datetime(*time.localtime(hi - 1)[:6])
+            for add in (1, 1800, abs(off - prev) - 1):
+                x = before + _dt.timedelta(seconds=add if off > prev else add - abs(off - prev))
+                out.append((x.year, x.month, x.day, x.hour, x.minute, x.second, off // 60))
+        prev = off
+    _GAPS[tz] = out
+    return out
 
 
 def repo_head() -> str:
